@@ -6,6 +6,7 @@ import ZkVerif.Exec.Proto
 import ZkVerif.Model.Schnorr
 import ZkVerif.Model.Arith
 import ZkVerif.Model.Transcript
+import ZkVerif.Model.Merchant
 namespace ZkVerif.Ops
 open ZkVerif ZkVerif.Proto
 
@@ -62,6 +63,32 @@ def tAtom : Atom Fq Fq Fq → String
   | .bytes b => join [tV "x", tX b]
 
 def tTranscript (t : Transcript Fq Fq Fq) : String := join (("l:" ++ toString t.length) :: t.map tAtom)
+
+/-- one transcript item of the generic `transcript` op: `kind:field;field;…` (fields are hex or
+comma-separated hex lists) -/
+def parseItem (t : String) : Option (Transcript Fq Fq Fq) :=
+  match t.splitOn ":" with
+  | [kind, body] =>
+    let fs := body.splitOn ";"
+    match kind, fs with
+    | "s", [x] => do pure [.s (← parseFq x)]
+    | "g1", [x] => do pure [.g1 (← parseFq x)]
+    | "g2", [x] => do pure [.g2 (← parseFq x)]
+    | "bytes", [x] => do pure [.bytes (← parseBytes x)]
+    | "cp1", [c, t] => do pure (CProof.atoms1 (⟨← parseFq c, ← parseFq t, 0, []⟩ : CProof Fq Fq))
+    | "cp2", [c, t] => do pure (CProof.atoms2 (⟨← parseFq c, ← parseFq t, 0, []⟩ : CProof Fq Fq))
+    | "sig", [a, b] => do pure (Sig.atoms (⟨← parseFq a, ← parseFq b⟩ : Sig Fq))
+    | "sp", [a, b, c, t] => do
+        pure (SProof.atoms (⟨⟨← parseFq a, ← parseFq b⟩, ⟨← parseFq c, ← parseFq t, 0, []⟩⟩ : SProof Fq Fq Fq))
+    | "pk", [g1, y1s, g2, x2, y2s] => do
+        pure (PubKey.atoms (mkPk (← parseFq g1) (← parseList y1s) (← parseFq g2) (← parseFq x2) (← parseList y2s)))
+    | "ped1", [h, gs] => do pure (PedParams.atoms1 (ped (← parseFq h) (← parseList gs)))
+    | "ped2", [h, gs] => do pure (PedParams.atoms2 (ped (← parseFq h) (← parseList gs)))
+    | "rp", [sigs, g1, y1, g2, x2, y2] => do
+        pure (RangeParams.atoms (mkRp (← parseList sigs) (← parseFq g1) (← parseFq y1) (← parseFq g2) (← parseFq x2) (← parseFq y2)))
+    | "range", [ps] => do pure (rangeAtoms (sproofsOfFlat (← parseList ps)))
+    | _, _ => none
+  | _ => none
 
 def tErr : Err → String
   | .amountTooLarge v => join [tV "amount-too-large", tN v]
@@ -151,6 +178,33 @@ def dispatch (args : List String) : Option String :=
       let rp := mkRp (← parseList sigs) (← parseFq g1) (← parseFq y1) (← parseFq g2) (← parseFq x2) (← parseFq y2)
       pure (tB (rangeVerify Fq.e rp (sproofsOfFlat (← parseList proofs)) (← parseFq c) (← parseFq expected)))
   | ["digits", v] => do pure (join ((digitsLoop rpL (← parseHex v)).map tN))
+  | "transcript" :: items => do
+      let ts ← items.mapM parseItem
+      pure (tTranscript ts.flatten)
+  -- zkAbacus establish proofs (C01, C06, C12)
+  | ["est-transcript", g1, y1s, g2, x2, y2s, close, cid, cb, mb, k0, k1, k3, k4, sC, sT, szbf, szs, cC, cT, czbf, czs, ctx, legacy] => do
+      let pk := mkPk (← parseFq g1) (← parseList y1s) (← parseFq g2) (← parseFq x2) (← parseList y2s)
+      let p : EstProof Fq Fq := ⟨← parseFq k0, ← parseFq k1, ← parseFq k3, ← parseFq k4,
+        ⟨← parseFq sC, ← parseFq sT, ← parseFq szbf, ← parseList szs⟩, ⟨← parseFq cC, ← parseFq cT, ← parseFq czbf, ← parseList czs⟩⟩
+      let pub : EstPub Fq := ⟨← parseFq cid, ← parseFq cb, ← parseFq mb⟩
+      let cl ← parseFq close
+      let cx ← parseBytes ctx
+      let t := if legacy == "1" then Legacy.estTranscript pk cl pub p cx else estTranscript pk cl pub p cx
+      pure (tTranscript t)
+  | ["est-verify", g1, y1s, g2, x2, y2s, close, cid, cb, mb, k0, k1, k3, k4, sC, sT, szbf, szs, cC, cT, czbf, czs, c] => do
+      let pk := mkPk (← parseFq g1) (← parseList y1s) (← parseFq g2) (← parseFq x2) (← parseList y2s)
+      let p : EstProof Fq Fq := ⟨← parseFq k0, ← parseFq k1, ← parseFq k3, ← parseFq k4,
+        ⟨← parseFq sC, ← parseFq sT, ← parseFq szbf, ← parseList szs⟩, ⟨← parseFq cC, ← parseFq cT, ← parseFq czbf, ← parseList czs⟩⟩
+      let pub : EstPub Fq := ⟨← parseFq cid, ← parseFq cb, ← parseFq mb⟩
+      match estVerifyWith pk (← parseFq close) pub p (← parseFq c) with
+      | some (s, cl) => pure (join [tV "some", tS s, tS cl])
+      | none => pure (tV "none")
+  | ["est-prove", g1, y1s, g2, x2, y2s, close, ms, bfS, tbfS, tsS, bfC, tbfC, t1C, c] => do
+      let pk := mkPk (← parseFq g1) (← parseList y1s) (← parseFq g2) (← parseFq x2) (← parseList y2s)
+      let d : EstDraws Fq := ⟨← parseFq bfS, ← parseFq tbfS, ← parseList tsS, ← parseFq bfC, ← parseFq tbfC, ← parseFq t1C⟩
+      let p := estProveWith pk (← parseFq close) (← parseList ms) d (← parseFq c)
+      pure (join [tS p.kCid, tS p.kClose, tS p.kCb, tS p.kMb, tS p.st.C, tS p.st.T, tS p.st.zbf, tL p.st.zs,
+        tS p.cl.C, tS p.cl.T, tS p.cl.zbf, tL p.cl.zs])
   | ["pk-validate", g1, y1s, g2, x2, y2s] => do
       let pk := mkPk (← parseFq g1) (← parseList y1s) (← parseFq g2) (← parseFq x2) (← parseList y2s)
       pure (tB (decide pk.Valid))
